@@ -24,6 +24,8 @@ def gen_case(rng):
             spec['terms'][lab] = rulesets.gen_terminal(rng, lab, 'counts', 3, 4)
             if lab[0] == 'A':
                 spec['terms']['C' + lab[1:]] = rulesets.gen_terminal(rng, 'C' + lab[1:], 'counts', 2, 2)
+    if rng.random() < 0.3:
+        rulesets.add_odd_alpha(rng, spec)
     gstream.add_prince(rng, spec)
     return {'kind': 'synthetic', 'spec': spec, 'all_lower': rng.random() < 0.4, 'hseed': rng.getrandbits(32)}
 
